@@ -132,6 +132,12 @@ pub fn run(seed: u64, tier: &str, out: &mut Out) {
                     if rewind_pending { last_reset = now; }
                     for _ in 0..m { if pos < u64::MAX { pos += 1; case += " ; inc 1"; pb.inc(1); push(&mut points, now, pos); } } last_stall = None; twin = None; just_sampled = false;
                 }
+                // `reset()` on a bar that is fed by `update` only: position and estimator start again, the twin is a fresh bar at 0
+                11 if kind == 1 && !finished && rng.chance(1, 3) => {
+                    case += " ; reset"; pb.reset(); pos = 0;
+                    points = vec![(now, 0, 0)]; last_reset = now; last_stall = None; just_sampled = false;
+                    twin = Some((ProgressBar::hidden(), 0));
+                }
                 11 => {
                     case += " ; reseteta"; pb.reset_eta();
                     points = vec![(now, pos, pos)]; last_reset = now; last_stall = None; just_sampled = false;
@@ -179,7 +185,7 @@ pub fn run(seed: u64, tier: &str, out: &mut Out) {
                         if v > max_rate * (1.0 + 1e-9) + 1e-12 { fail(&mut verdict, format!("FAIL above-largest-observed-rate {v} > {max_rate}")); }
                         if kind == 0 && steady_ok && just_sampled && !close(v, rate as f64, 1e-6) { fail(&mut verdict, format!("FAIL steady-rate true rate {rate}/s reported {v}")); }
                         if let Some(prev) = last_stall { if v > prev * (1.0 + 1e-9) + 1e-12 { fail(&mut verdict, format!("FAIL rises-during-stall {prev} -> {v}")); } }
-                        if let Some((t, _)) = &twin { let tv = t.per_sec(); if now > last_reset && !(close(v, tv, 1e-9) || (!tv.is_finite() && !v.is_finite())) { fail(&mut verdict, format!("FAIL reset-does-not-forget after reset_eta: {v}, fresh bar: {tv}")); } }
+                        if let Some((t, _)) = &twin { let tv = t.per_sec(); if now > last_reset && !(close(v, tv, 1e-9) || (!tv.is_finite() && !v.is_finite())) { fail(&mut verdict, format!("FAIL reset-does-not-forget after reset_eta / reset: {v}, a fresh bar created then and given the same updates: {tv}")); } }
                     }
                     last_stall = Some(v);
                 }
